@@ -293,6 +293,34 @@ def run(ctx):
             break
     ctx.cov["compressed_stdin_faults_fired"] = fired_f
 
+    # ---- (g) close(2) of the OUTPUT failing (where NFS, quota and thin-provisioned file systems report deferred write errors): every tool
+    # that writes its stdout through util::FileStream closes descriptor 1 itself and checks the result (observed on the pinned tree for the
+    # fourteen tools below).  The first close of fd 1 is made to fail with ENOSPC: the tool must exit non-zero - and it must get there: a
+    # tool that no longer closes its output can never report such an error.
+    text_ = b"a\tb\tc\td\te\tf\nline two\n"
+    b64_ = base64.b64encode(b"doc\n") + b"\n"
+    subf = os.path.join(ctx.tmp, "sub_g.txt")
+    open(subf, "wb").write(b"nothing\n")
+    closers = [("dedupe", [], text_), ("remove_long_lines", ["100"], text_), ("cache", ["cat"], text_), ("foldfilter", ["cat"], text_), ("b64filter", ["cat"], b64_),
+               ("vocab", [], text_), ("remove_invalid_utf8", [], text_), ("docenc", [], text_), ("base64_number", [], b64_), ("commoncrawl_dedupe", [], text_),
+               ("subtract_lines", [subf], text_), ("simple_cleaning", [], text_), ("idf", [], text_), ("warc_parallel", ["cat"], b"WARC/1.0\r\nContent-Length: 2\r\n\r\nab\r\n\r\n")]
+    for tool, args, stdin in closers:
+        rep = os.path.join(ctx.tmp, "rep_g.txt")
+        if os.path.exists(rep):
+            os.unlink(rep)
+        e = pvlib.san_env({"LD_PRELOAD": shim, "PV_FAULTS": "c1=e28", "PV_FAULT_FDS": "1", "PV_FAULT_REPORT": rep, "PV_DELAY_ONLY": tool})
+        e["ASAN_OPTIONS"] += ":verify_asan_link_order=0"
+        st, out, err = pvlib.run_tool([ctx.bin(tool)] + args, stdin, env=e, timeout=60)
+        fired_ = os.path.exists(rep) and "rule=1" in open(rep).read()
+        ctx.count("close-of-stdout-fails", 1, [tool])
+        if not fired_ or not nonzero(st):
+            pvlib.report_violation(ctx, f"close-stdout:{tool}", {"argv": [tool] + [os.path.basename(a_) if a_.startswith("/") else a_ for a_ in args], "stdin_hex": hx(stdin),
+                                   "env": {"LD_PRELOAD": "harness/faults_preload.so", "PV_FAULTS": "c1=e28", "PV_FAULT_FDS": "1"}, "status": st, "close_of_fd_1_attempted": fired_,
+                                   "stderr": err.decode(errors="replace")[-300:]},
+                                   summary=(f"{tool}: close(2) of its stdout failed with ENOSPC and the tool exited {st}" if fired_ else
+                                            f"{tool} never closes its stdout (exit status {st}): an error that the file system reports at close cannot make it fail"))
+            break
+
 
 def search(ctx, broken):
     pass   # run() already enumerates child deaths and failing calls; nothing wider to try
